@@ -278,6 +278,14 @@ class Intervals:
                     iv = ty_range(dst_ty or "")
             elif rv["op"] == "PtrMetadata":
                 iv = (0, LEN_MAX)
+                sp = rv["x"].get("copy") or rv["x"].get("move")
+                if sp is not None and not sp["p"]:
+                    sym = ("p", "%d#len" % sp["l"])
+                    iv = env.get(sym, iv)
+                    env[sym] = iv
+                    env[k] = iv
+                    env[("a", k)] = sym
+                    return
             else:
                 iv = ty_range(dst_ty or "")
         elif kind == "discr":
@@ -334,14 +342,26 @@ class Intervals:
         k = place_key(dest)
         if not dest["p"]:
             self.invalidate(env, dest["l"])
-        # a call that receives `&mut local` may change it
+        # a call that receives `&mut local` may change it (its length symbol and anything keyed under it)
         for a, aty in zip(t["args"], t.get("argtys", [])):
-            if aty.startswith("&mut") or aty.startswith("&'") and "mut " in aty[:12]:
-                o = self.b.origin(a)
-                while o and o[0] in ("ref", "deref"):
-                    o = o[1]
+            if aty.startswith("&mut"):
+                base = self.ref_base(a)
+                if base is not None:
+                    self.invalidate(env, base)
         iv = ty_range(t.get("dty") or "")
         name = rd or d or ""
+        sym = None
+        if re.search(r"::len$", d or "") and t["args"]:
+            base = self.ref_base(t["args"][0])
+            if base is not None:
+                sym = ("p", "%d#len" % base)
+        if sym is not None:
+            iv = env.get(sym, (0, LEN_MAX))
+            env[sym] = iv
+            env[k] = iv
+            if not dest["p"]:
+                env[("a", k)] = sym
+            return
         if name in self.summaries:
             iv = self.summaries[name](self, env, t)
         else:
@@ -353,6 +373,27 @@ class Intervals:
             env.pop(k, None)
         else:
             env[k] = iv
+
+    def ref_base(self, op):
+        """local whose address the operand holds (`&_n` / `&mut _n`, possibly through one copy), else None"""
+        p = op.get("copy") or op.get("move")
+        if p is None or p["p"]:
+            return None
+        for _ in range(3):
+            d = self.b.single_def(p["l"])
+            if d is None or d[0] != "stmt":
+                return None
+            rv = d[3]["rv"]
+            if rv["k"] in ("ref", "rawptr") and not rv["place"]["p"]:
+                return rv["place"]["l"]
+            if rv["k"] in ("ref", "rawptr") and rv["place"]["p"] == ["deref"]:
+                # reborrow of a reference held in a local: identify by that local
+                return rv["place"]["l"]
+            if rv["k"] == "use" and (rv["x"].get("copy") or rv["x"].get("move")) and not (rv["x"].get("copy") or rv["x"].get("move"))["p"]:
+                p = rv["x"].get("copy") or rv["x"].get("move")
+                continue
+            return None
+        return None
 
     # ------------------------------------------------------------ refinement
     def refine(self, env, key, lo=None, hi=None):
